@@ -152,6 +152,15 @@ def check(ctx, rep):
                            'the input is rejected although it was applied' % (f.where(bb), nme))
     if n_sites < 3:
         rep.bad('R12.f', 'sites', 'expected at least 3 sites producing input errors, found %d' % n_sites)
+    # R12.c: a rejected response affects at most the request it was addressed to: resume() touches only the addressed entry and frees it
+    # only when it can no longer be resolved — never because the response was rejected (shared with C09 R09.a / R09.b)
+    from rules.props import c09, c06
+    rep.rule('R12.c', 'a rejected response touches only the addressed registry entry and never frees a request that can still be resolved', floor=3)
+    res_fn = c06.method(core, 'crux_core::bridge::registry::ResolveRegistry', 'resume')
+    if res_fn is None:
+        rep.missing('R12.c', 'ResolveRegistry::resume')
+    else:
+        c09.check_resume(rep, 'R12.c', 'R12.c', core, res_fn)
     # R12.d
     used = set()
     for f in fns:
